@@ -98,7 +98,11 @@ fn media_history(prop: &str, i: u64, rng: &mut Rng, out: &mut Outcome, dir: &std
             (mime, data)
         };
         prev.push((mime, data.clone()));
-        let fname: String = match rng.below(4) {
+        let fname: String = match rng.below(6) {
+            // names whose first or last character is white space (the name is bound byte for byte into
+            // key and associated data), inner runs of blanks, a name that looks like another imeta entry
+            4 => rng.pick(&["report.pdf ", " notes.pdf", "notes.pdf\u{3000}", "\u{a0}x.bin", "two  blanks.dat", "m image/png", "x 00ff.bin"]).to_string(),
+            5 => format!(" f{fi} {} ", rng.next() % 1000),
             0 => "photo 1.bin".into(),
             1 => "\u{1F4F7}\u{5199}\u{771f}.dat".into(),
             2 => format!("{}.x", "f".repeat(200)),
